@@ -1,129 +1,29 @@
-import PilotaModel.Lemmas.BinaryRT
+import PilotaModel.Props.C07
 import PilotaModel.TGen.Reader
-/-  The default recursive skipper (binary widths) consumes exactly the encoding of a well-typed value. -/
+/-  The skipper an emitted decoder calls consumes exactly the encoding of a well-typed value
+    (from the C07 theorems about Thrift/Skip.lean). -/
 namespace Pilota.TGen
 open Pilota Pilota.Thrift Pilota.Thrift.Binary
 
 /-- depth budget `dp` admits nesting `n` (`none` = the unchecked codec's iterative skipper: no limit) -/
 def admits (dp : Option Nat) (n : Nat) : Prop := match dp with | none => True | some d => n ≤ d
 
-theorem admits_pred (dp : Option Nat) (n : Nat) (h : admits dp (n + 1)) : admits (dp.map (· - 1)) n := by
+/-- the iterative skipper exists for the big-endian unchecked reader only -/
+def EndianOk (e : Endian) (dp : Option Nat) : Prop := dp = none → e = .be
+
+theorem binRd_skip_enc (e : Endian) (dp : Option Nat) (hed : EndianOk e dp) (v : TVal) (hw : v.wt = true)
+    (hd : admits dp v.need) (rest : Bytes) :
+    (binRd e dp).skip v.ttype (enc e v ++ rest) = .ok rest := by
   cases dp with
-  | none => trivial
-  | some d => simp [admits] at *; omega
-
-theorem admits_mono (dp : Option Nat) (a b : Nat) (hab : a ≤ b) (h : admits dp b) : admits dp a := by
-  cases dp with
-  | none => trivial
-  | some d => simp [admits] at *; omega
-
-theorem not_zero_of_admits (dp : Option Nat) (n : Nat) (h : admits dp (n + 1)) : dp ≠ some 0 := by
-  cases dp with
-  | none => simp
-  | some d => simp [admits] at *; omega
-
-theorem takeN_drop (n : Nat) (a r : Bytes) (h : a.length = n) : mapOut (·.2) (takeN n (a ++ r)) = .ok r := by
-  rw [takeN_append' n a r h]; rfl
-
-mutual
-theorem skipBin_enc (e : Endian) (v : TVal) (hw : v.wt = true) (f : Nat) (hf : v.size ≤ f) (dp : Option Nat)
-    (hd : admits dp v.need) (r : Bytes) :
-    skipBin e f dp v.ttype (enc e v ++ r) = .ok r := by
-  cases f with
-  | zero => cases v <;> simp [TVal.size] at hf
-  | succ f =>
-    have hnz : dp ≠ some 0 := by
-      apply not_zero_of_admits dp (v.need - 1)
-      have : 1 ≤ v.need := by cases v <;> simp [TVal.need]
-      rwa [Nat.sub_add_cancel this]
-    rw [skipBin]
-    simp only [hnz, if_false]
-    cases v with
-    | bool b => simp only [TVal.ttype, enc]; exact takeN_drop 1 _ r (by simp)
-    | i8 n => simp only [TVal.ttype, enc]; exact takeN_drop 1 _ r (by simp [i])
-    | i16 n => simp only [TVal.ttype, enc]; exact takeN_drop 2 _ r (by simp [i])
-    | i32 n => simp only [TVal.ttype, enc]; exact takeN_drop 4 _ r (by simp [i])
-    | i64 n => simp only [TVal.ttype, enc]; exact takeN_drop 8 _ r (by simp [i])
-    | dbl b => simp only [TVal.ttype, enc]; exact takeN_drop 8 _ r (by simp)
-    | uuid bs => simp [TVal.wt] at hw; simp only [TVal.ttype, enc]; exact takeN_drop 16 _ r hw
-    | bin bs =>
-      simp [TVal.wt] at hw
-      simp only [TVal.ttype, enc, List.append_assoc]
-      rw [readLen e bs.length hw]
-      simp only [asUsize_toS4 _ hw]
-      exact takeN_drop _ bs r rfl
-    | struct fs =>
-      simp [TVal.wt] at hw; simp [TVal.size] at hf
-      simp only [TVal.ttype, enc]
-      exact skipBinFields_enc e fs hw f hf _ (admits_pred dp _ (by simpa [TVal.need] using hd)) r
-    | list et xs =>
-      simp [TVal.wt] at hw; simp [TVal.size] at hf
-      obtain ⟨⟨_, hl⟩, hx⟩ := hw
-      simp only [TVal.ttype, enc, List.cons_append, List.append_assoc]
-      rw [readListBegin_enc e et _ hl _ (by have := vals_length_le e xs et hx; simp only [List.length_append]; omega)]
-      exact skipBinN_enc e et xs hx f hf _ (admits_pred dp _ (by simpa [TVal.need] using hd)) r
-    | set et xs =>
-      simp [TVal.wt] at hw; simp [TVal.size] at hf
-      obtain ⟨⟨_, hl⟩, hx⟩ := hw
-      simp only [TVal.ttype, enc, List.cons_append, List.append_assoc]
-      rw [readListBegin_enc e et _ hl _ (by have := vals_length_le e xs et hx; simp only [List.length_append]; omega)]
-      exact skipBinN_enc e et xs hx f hf _ (admits_pred dp _ (by simpa [TVal.need] using hd)) r
-    | map kt vt kvs =>
-      simp [TVal.wt] at hw; simp [TVal.size] at hf
-      obtain ⟨⟨⟨_, _⟩, hl⟩, hx⟩ := hw
-      simp only [TVal.ttype, enc, List.cons_append, List.append_assoc]
-      rw [readMapBegin_enc e kt vt _ hl _ (by have := pairs_length_le e kvs kt vt hx; simp only [List.length_append]; omega)]
-      exact skipBinPairs_enc e kt vt kvs hx f hf _ (admits_pred dp _ (by simpa [TVal.need] using hd)) r
-theorem skipBinFields_enc (e : Endian) (fs : TFields) (hw : fs.wt = true) (f : Nat) (hf : fs.size ≤ f) (dp : Option Nat)
-    (hd : admits dp fs.need) (r : Bytes) :
-    skipBinFields e f dp (encFields e fs ++ r) = .ok r := by
-  cases f with
-  | zero => cases fs <;> simp [TFields.size] at hf
-  | succ f =>
-    cases fs with
-    | nil => simp [encFields, skipBinFields, readFieldBegin, readTType, readByte, TType.ofByte]
-    | cons id v rest =>
-      simp [TFields.wt] at hw; simp [TFields.size] at hf
-      obtain ⟨⟨hid, hv⟩, hr⟩ := hw
-      have hns : v.ttype ≠ .stop := ttype_isValue_ne_stop _ (val_ttype_isValue v)
-      simp only [encFields, skipBinFields, readFieldBegin, List.cons_append, List.append_assoc, readTType_cons, hns, if_false]
-      rw [readI_i e 2 (by decide) id hid]
-      simp only [hns, if_false]
-      rw [skipBin_enc e v hv f (by omega) dp (admits_mono dp _ _ (by simp [TFields.need]; omega) hd)]
-      exact skipBinFields_enc e rest hr f (by omega) dp (admits_mono dp _ _ (by simp [TFields.need]; omega) hd) r
-theorem skipBinN_enc (e : Endian) (et : TType) (xs : TVals) (hw : xs.wt et = true) (f : Nat) (hf : xs.size ≤ f) (dp : Option Nat)
-    (hd : admits dp xs.need) (r : Bytes) :
-    skipBinN e f dp et xs.length (encVals e xs ++ r) = .ok r := by
-  cases f with
-  | zero => cases xs <;> simp [TVals.size] at hf
-  | succ f =>
-    cases xs with
-    | nil => simp [encVals, skipBinN, TVals.length]
-    | cons v vs =>
-      simp [TVals.wt] at hw; simp [TVals.size] at hf
-      obtain ⟨⟨ht, hv⟩, hr⟩ := hw
-      simp only [encVals, TVals.length, skipBinN, List.append_assoc]
-      rw [← ht, skipBin_enc e v hv f (by omega) dp (admits_mono dp _ _ (by simp [TVals.need]; omega) hd)]
-      rw [ht]
-      exact skipBinN_enc e et vs hr f (by omega) dp (admits_mono dp _ _ (by simp [TVals.need]; omega) hd) r
-theorem skipBinPairs_enc (e : Endian) (kt vt : TType) (kvs : TPairs) (hw : kvs.wt kt vt = true) (f : Nat) (hf : kvs.size ≤ f)
-    (dp : Option Nat) (hd : admits dp kvs.need) (r : Bytes) :
-    skipBinPairs e f dp kt vt kvs.length (encPairs e kvs ++ r) = .ok r := by
-  cases f with
-  | zero => cases kvs <;> simp [TPairs.size] at hf
-  | succ f =>
-    cases kvs with
-    | nil => simp [encPairs, skipBinPairs, TPairs.length]
-    | cons k v rest =>
-      simp [TPairs.wt] at hw; simp [TPairs.size] at hf
-      obtain ⟨⟨⟨⟨hk, hv⟩, hkw⟩, hvw⟩, hr⟩ := hw
-      simp only [encPairs, TPairs.length, skipBinPairs, List.append_assoc]
-      rw [← hk, skipBin_enc e k hkw f (by omega) dp (admits_mono dp _ _ (by simp [TPairs.need]; omega) hd)]
-      simp only
-      rw [← hv, skipBin_enc e v hvw f (by omega) dp (admits_mono dp _ _ (by simp [TPairs.need]; omega) hd)]
-      simp only
-      rw [hk, hv]
-      exact skipBinPairs_enc e kt vt rest hr f (by omega) dp (admits_mono dp _ _ (by simp [TPairs.need]; omega) hd) r
-end
+  | some dpt =>
+    have := Pilota.Props.C07.skip_exact e v hw (dpt : Int) (by simp [admits] at hd; omega) rest
+    rw [Binary.run_ops] at this
+    simp [binRd, this, mapOut]
+  | none =>
+    have he : e = .be := hed rfl
+    subst he
+    have := Pilota.Props.C07.iter_skip_exact v hw rest
+    rw [Binary.run_ops] at this
+    simp [binRd, this, mapOut]
 
 end Pilota.TGen
